@@ -37,11 +37,11 @@ func isHostLayer(l int) bool { return l == layHostNoise || l == layHostTLS }
 
 // fault strata
 const (
-	stClean  = iota // fragmentation only: complete delivery is demanded
-	stTiming        // link latency, reader deadlines with retry, writer pauses
-	stStall         // one raw endpoint stops receiving at its k-th I/O call; readers use deadlines
-	stAdversary     // frame-aware man in the middle on the raw connection (authenticated layers only)
-	stPeerClose     // no fault at all: one side closes the whole connection as soon as it has finished, the other side's readers lag
+	stClean     = iota // fragmentation only: complete delivery is demanded
+	stTiming           // link latency, reader deadlines with retry, writer pauses
+	stStall            // one raw endpoint stops receiving at its k-th I/O call; readers use deadlines
+	stAdversary        // frame-aware man in the middle on the raw connection (authenticated layers only)
+	stPeerClose        // no fault at all: one side closes the whole connection as soon as it has finished, the other side's readers lag
 )
 
 var stratumName = [...]string{"clean", "timing", "stall", "adversary", "peer-close"}
@@ -75,15 +75,15 @@ func (b bufSpec) String() string {
 }
 
 type chanPlan struct {
-	writes   []int
-	pauses   []time.Duration // before write i (len = len(writes)+1: the last one precedes the close)
-	total    int
-	bufs     []bufSpec
-	deadline time.Duration // 0 = reader sets no deadline
-	retries  int
+	writes     []int
+	pauses     []time.Duration // before write i (len = len(writes)+1: the last one precedes the close)
+	total      int
+	bufs       []bufSpec
+	deadline   time.Duration // 0 = reader sets no deadline
+	retries    int
 	startDelay time.Duration // the reader starts late (slow consumer)
-	postEOF  int
-	frames   []int // cumulative ends of the notional Noise frames of the planned writes
+	postEOF    int
+	frames     []int // cumulative ends of the notional Noise frames of the planned writes
 }
 
 type advPlan struct {
@@ -91,7 +91,7 @@ type advPlan struct {
 	toDialer bool // direction attacked: false = A->B (towards the listener end), true = B->A
 	k        int  // index of the attacked frame, counted from the instant the adversary is armed
 	action   int
-	pos      int  // flip: 0 first body byte, 1 last byte (tag), 2 middle, 3 last header byte, 4 first header byte; truncate: 0 at frame start, 1 mid-frame
+	pos      int // flip: 0 first body byte, 1 last byte (tag), 2 middle, 3 last header byte, 4 first header byte; truncate: 0 at frame start, 1 mid-frame
 	bit      byte
 }
 
